@@ -37,6 +37,25 @@ impl Build<f64> for NdFB {
     }
 }
 
+/// ndarray with the layout chosen per operand (from the operand's own content), so that binary operations
+/// frequently meet one operand in standard and the other in column-major layout
+pub struct NdMixB;
+impl Build<f64> for NdMixB {
+    type M = Array2<f64>;
+    const NAME: &'static str = "ndarray-mixed-layout";
+    fn build(m: &Mat) -> Array2<f64> {
+        let key = m.d.iter().fold(m.r as u64 * 31 + m.c as u64, |h, x| h.wrapping_mul(1099511628211).wrapping_add(x.to_bits() >> 40));
+        if key % 2 == 0 {
+            <NdB as Build<f64>>::build(m)
+        } else {
+            <NdFB as Build<f64>>::build(m)
+        }
+    }
+    fn build_vec(v: &[f64]) -> Array1<f64> {
+        Array1::from(v.to_vec())
+    }
+}
+
 pub struct NaB;
 impl Build<f64> for NaB {
     type M = DMatrix<f64>;
@@ -71,7 +90,7 @@ fn check_matop(case: &MatCase, ctx: &mut Ctx) -> Result<(), Fail> {
     let exp = model(op, a, b, eps);
     ctx.label_if(matches!(exp, Expect::Panic), "must-reject");
     let dense = exec::<f64, DenseB>(op, a, b)?;
-    let others: Vec<(&str, Result<Val, String>)> = vec![("ndarray", exec::<f64, NdB>(op, a, b)?), ("ndarray-f-layout", exec::<f64, NdFB>(op, a, b)?), ("nalgebra", exec::<f64, NaB>(op, a, b)?)];
+    let others: Vec<(&str, Result<Val, String>)> = vec![("ndarray", exec::<f64, NdB>(op, a, b)?), ("ndarray-f-layout", exec::<f64, NdFB>(op, a, b)?), ("ndarray-mixed-layout", exec::<f64, NdMixB>(op, a, b)?), ("nalgebra", exec::<f64, NaB>(op, a, b)?)];
     for (name, got) in &others {
         let tag = format!("{}/{}", name, op.name());
         match op {
@@ -245,7 +264,7 @@ pub fn property() -> Property {
     Property {
         id: "C20",
         quick_mult: 24,
-        rule: "the same logical matrix is materialised as DenseMatrix<f64>, ndarray::Array2<f64> in standard layout, Array2 in column-major layout (reversed_axes of the transpose) and nalgebra::DMatrix<f64>; every BaseMatrix / BaseVector / stats / high-order operation is run on all of them for shapes 1..8 x 1..8, the value classes of C03 (mixed, all-negative, all-equal, integers, large) and compatible / incompatible pairings, and compared with the textbook model (so also with each other); the C01 / C02 decomposition checks are re-run on the ndarray and nalgebra backends; the deterministic estimators are fitted on identical generated data on all three backends. non-trivial = non-square operand with mixed signs (matops), length >= 2 (vecops), dimension >= 2 or 3 (decompositions), every case (estimators); distinct = distinct serialised case",
+        rule: "the same logical matrix is materialised as DenseMatrix<f64>, ndarray::Array2<f64> in standard layout, Array2 in column-major layout (reversed_axes of the transpose), Array2 with the layout chosen per operand (mixed-layout pairs) and nalgebra::DMatrix<f64>; every BaseMatrix / BaseVector / stats / high-order operation is run on all of them for shapes 1..8 x 1..8, the value classes of C03 (mixed, all-negative, all-equal, integers, large) and compatible / incompatible pairings, and compared with the textbook model (so also with each other); the C01 / C02 decomposition checks are re-run on the ndarray and nalgebra backends; the deterministic estimators are fitted on identical generated data on all three backends. non-trivial = non-square operand with mixed signs (matops), length >= 2 (vecops), dimension >= 2 or 3 (decompositions), every case (estimators); distinct = distinct serialised case",
         assumptions: vec![
             "variance / std along an axis are compared between backends (they share the one-pass default implementation, C03's known finding), not with the two-pass reference".into(),
             "where the shape contract leaves an outcome open, the backends are still required to fall in the same outcome class (value / panic) as the dense matrix".into(),
